@@ -187,6 +187,7 @@ type Obligation struct {
 	Model    string
 	Output   string
 	Script   string
+	scriptHash string
 }
 
 func (o *Obligation) String() string { return fmt.Sprintf("%s [%s] %s", o.Label, o.Kind, o.Pos) }
